@@ -27,16 +27,20 @@ Seeds == ndJsonDeserialize(IOEnv.SEEDS)
 MovesAt(tk) ==
   CASE tk.k = "word" -> {"upper", "lower", "mixed"}
     [] tk.k = "blank" -> {"two", "tab"}
-    [] tk.k = "eol" -> {"blankline", "comment", "trailblank"} \cup (IF tk.join THEN {"join"} ELSE {})
-    [] tk.k = "colon" -> (IF tk.split THEN {"split"} ELSE {})
+    \* commentline: a comment on a line of its own follows; commentblank / commentlineblank: a trailing comment / a
+    \* comment line, and then a blank line; jointight / joinleft: the colon without blanks / with a blank only before it
+    [] tk.k = "eol" -> {"blankline", "comment", "trailblank", "commentline", "commentblank", "commentlineblank"}
+                       \cup (IF tk.join THEN {"join", "joinleft"} ELSE {}) \cup (IF tk.join /\ tk.tight THEN {"jointight"} ELSE {})
+    [] tk.k = "colon" -> (IF tk.pad THEN {"pad", "padleft"} ELSE {}) \cup (IF tk.split THEN {"split"} ELSE {})
     [] OTHER -> {}
 
 \* the token after a move: only layout attributes change
 Apply(tk, mv) ==
   CASE mv \in {"upper", "lower", "mixed"} -> [tk EXCEPT !.case = mv]
     [] mv \in {"two", "tab"} -> [tk EXCEPT !.width = mv]
-    [] mv \in {"blankline", "comment", "trailblank"} -> [tk EXCEPT !.extra = mv]
-    [] mv = "join" -> [tk EXCEPT !.k = "colon"]
+    [] mv \in {"blankline", "comment", "trailblank", "commentline", "commentblank", "commentlineblank"} -> [tk EXCEPT !.extra = mv]
+    [] mv \in {"pad", "padleft"} -> [tk EXCEPT !.width = mv]
+    [] mv \in {"join", "jointight", "joinleft"} -> [tk EXCEPT !.k = "colon"]
     [] mv = "split" -> [tk EXCEPT !.k = "eol"]
 
 \* what a token means: its kind up to separator unification, and its text up to case
@@ -58,11 +62,11 @@ Init ==
                  /\ \E j \in {x \in SiteSet(s) : x > i} : \E mj \in MovesAt(Seeds[s].toks[j]) :
                        sites = (i :> mi) @@ (j :> mj)
      \/ /\ mode = "all"          \* every site moved at once, one choice of move per kind
-        /\ \E cw \in {"upper", "lower", "mixed"}, bw \in {"two", "tab"}, ew \in {"blankline", "comment", "trailblank"} :
+        /\ \E cw \in {"upper", "lower", "mixed"}, bw \in {"two", "tab"}, ew \in {"blankline", "comment", "trailblank", "commentline", "commentblank", "commentlineblank"} :
               sites = [i \in SiteSet(s) |->
                          LET tk == Seeds[s].toks[i] IN
                          IF tk.k = "word" THEN cw ELSE IF tk.k = "blank" THEN bw
-                         ELSE IF tk.k = "eol" THEN ew ELSE "split"]
+                         ELSE IF tk.k = "eol" THEN ew ELSE IF tk.split THEN "split" ELSE "pad"]
      \/ /\ mode = "alljoin"      \* every line end that may become a colon does: whole constructs end up on one line
         /\ sites = [i \in {x \in SiteSet(s) : Seeds[s].toks[x].k = "eol" /\ Seeds[s].toks[x].join} |-> "join"]
         /\ DOMAIN sites # {}
